@@ -4,7 +4,14 @@
 of *expr* be built from, and which non-transparent operations were applied on the
 way" - flow-sensitive (reaching definitions over the CFG), through local names,
 tuple unpacking of split-family calls, loop-carried accumulation, f-strings,
-concatenation, ``or`` defaults and calls of nested helper functions (inlined).
+concatenation, ``or`` defaults, comprehensions (the element expression over the
+iterated value, ``enumerate`` / ``zip`` positions respected) and calls of helper
+functions, which are inlined with their arguments bound: nested functions,
+methods of the same class (``self._helper(...)``), module-level functions of the
+package called with several arguments, and callables that arrive as an argument
+(``convert(username)`` with ``convert`` bound to ``_unquote_user``).  A helper
+that returns a tuple which the caller unpacks contributes, per target, only the
+matching element of each returned tuple.
 
 Transparent (they keep every character of the operand that they keep at all, so
 they neither encode nor decode): slicing / indexing, ``split rsplit partition
@@ -28,7 +35,7 @@ import ast
 import typing as t
 
 from ..cfg import CFG
-from ..dataflow import Def, ReachingDefs
+from ..dataflow import Def, ReachingDefs, bound_in_enclosing_comp
 from ..loader import FuncInfo, Repo, dotted, walk_no_nested
 
 ENC_DANCE = "werkzeug._internal._wsgi_encoding_dance"
@@ -66,6 +73,7 @@ class Op(t.NamedTuple):
     target: str | None = None  # fq of the callee for kind == call
     codec: str | None = None  # raw codec name for encode / decode (None = default)
     errors: str | None = None
+    sc: t.Any = None  # scope the call was evaluated in (a helper's parameters are bound there)
 
     def text(self) -> str:
         if self.kind in ("encode", "decode"):
@@ -80,9 +88,15 @@ class Leaf(t.NamedTuple):
     node: ast.AST | None
     ops: tuple[Op, ...] = ()
     key: str | None = None  # environ key / attribute text / parameter name
+    # how the value was cut out of its origin: 'tail' = the last piece of an rsplit(sep, 1) / rpartition(sep),
+    # 'head' = what that call left on the left
+    tags: frozenset = frozenset()
 
     def with_op(self, op: Op) -> "Leaf":
-        return Leaf(self.kind, self.node, self.ops + (op,), self.key)
+        return Leaf(self.kind, self.node, self.ops + (op,), self.key, self.tags)
+
+    def with_tag(self, tag: str | None) -> "Leaf":
+        return self if tag is None else Leaf(self.kind, self.node, self.ops, self.key, self.tags | {tag})
 
     def text(self) -> str:
         if self.kind == "const":
@@ -97,10 +111,15 @@ class Leaf(t.NamedTuple):
 
 
 class Scope:
-    def __init__(self, fn: ast.AST, parent: "Scope | None" = None, bind: dict[str, tuple[ast.AST, "Scope"]] | None = None):
+    def __init__(self, fn: ast.AST, parent: "Scope | None" = None, bind: dict[str, tuple[ast.AST, "Scope"]] | None = None,
+                 module: t.Any = None, li: dict[str, str] | None = None, cls: t.Any = None):
         self.fn = fn
         self.parent = parent
         self.bind = bind or {}
+        # where names of this function body are resolved (a helper of another module resolves in its own module)
+        self.module = module if module is not None else (parent.module if parent is not None else None)
+        self.li = li if li is not None else (parent.li if parent is not None else {})
+        self.cls = cls if cls is not None else (parent.cls if parent is not None else None)
         self.cfg = CFG(fn)
         a = fn.args  # type: ignore[attr-defined]
         self.params = [x.arg for x in a.posonlyargs + a.args + a.kwonlyargs] + ([a.vararg.arg] if a.vararg else []) + ([a.kwarg.arg] if a.kwarg else [])
@@ -122,13 +141,19 @@ class Flow:
         self.fi = fi
         self.module = fi.module
         self.li = fi.module.local_imports(fi.node)
-        self.root = Scope(fi.node)
+        self.root = Scope(fi.node, module=fi.module, li=self.li, cls=fi.cls)
         self._nested_scopes: dict[int, Scope] = {}
+        # helper functions (other than nested ones) that were looked into: id(def) -> FuncInfo
+        self.inlined: dict[int, FuncInfo] = {}
+        # scope in which an attribute leaf was evaluated (its receiver may be a parameter of a helper)
+        self.attr_scope: dict[int, Scope] = {}
 
     # -- resolution ------------------------------------------------------
-    def resolve(self, d: str | None) -> str | None:
+    def resolve(self, d: str | None, sc: "Scope | None" = None) -> str | None:
         if not d:
             return None
+        if sc is not None and sc.module is not None:
+            return self.repo.resolve(sc.module, d, sc.li)
         return self.repo.resolve(self.module, d, self.li)
 
     def scope_of(self, node: ast.AST) -> Scope:
@@ -203,8 +228,23 @@ class Flow:
             er = self.environ_read(e, sc)
             if er is not None:
                 return [Leaf("environ", e, (), er[0])]
-            return self._lv(e.value, sc, seen)
+            tag = None
+            if isinstance(e.slice, ast.Constant) and isinstance(e.slice.value, int):
+                src = e.value
+                if isinstance(src, ast.Name):
+                    node = sc.cfg.node_of(src)
+                    ds = sc.rd.reaching(node, src.id) if node is not None else frozenset()
+                    if len(ds) == 1 and next(iter(ds)).kind == "assign" and next(iter(ds)).index is None:
+                        src = next(iter(ds)).value
+                tag = peel_tag(src, e.slice.value, None)
+            elif isinstance(e.slice, ast.Slice):
+                tag = slice_peel(sc, e)
+            return [l.with_tag(tag) for l in self._lv(e.value, sc, seen)]
+        if isinstance(e, (ast.ListComp, ast.SetComp, ast.GeneratorExp)):
+            # the elements of the result are the element expression over the iterated values
+            return self._lv(e.elt, sc, seen)
         if isinstance(e, ast.Attribute):
+            self.attr_scope[id(e)] = sc
             return [Leaf("attr", e, (), ast.unparse(e))]
         if isinstance(e, ast.Name):
             return self._name(e, sc, seen)
@@ -213,23 +253,42 @@ class Flow:
         return [Leaf("other", e, (), None)]
 
     def _name(self, e: ast.Name, sc: Scope, seen: frozenset[int]) -> list[Leaf]:
-        if e.id in sc.bind:
-            arg, asc = sc.bind[e.id]
-            return self._lv(arg, asc, seen)
+        g = bound_in_enclosing_comp(e, sc.fn)
+        if g is not None:
+            return self._element(g.target, g.iter, e.id, sc, seen)
         node = sc.cfg.node_of(e)
-        defs = sc.rd.reaching(node, e.id) if node is not None else frozenset()
-        return self._defs(e.id, defs, e, sc, seen)
+        if node is None:
+            if e.id in sc.bind:
+                arg, asc = sc.bind[e.id]
+                return self._lv(arg, asc, seen)
+            return self._defs(e.id, frozenset(), e, sc, seen)
+        return self._defs(e.id, sc.rd.reaching(node, e.id), e, sc, seen)
+
+    def _element(self, target: ast.AST, it: ast.AST, name: str, sc: Scope, seen: frozenset[int]) -> list[Leaf]:
+        """origins of ``name`` when ``target`` is bound to the elements of the iterable ``it``
+        (``for target in it`` / comprehension generator): positions of ``enumerate`` / ``zip`` are kept apart."""
+        if isinstance(target, (ast.Tuple, ast.List)) and isinstance(it, ast.Call) and dotted(it.func):
+            fq = self.resolve(dotted(it.func), sc)
+            pos = next((i for i, x in enumerate(target.elts) if isinstance(x, ast.Name) and x.id == name), None)
+            args = it.args
+            plain = not any(isinstance(a, ast.Starred) for a in args) and all(k.arg in ("start", "fillvalue", "strict") for k in it.keywords)
+            if pos is not None and plain:
+                if fq == "builtins.enumerate" and len(target.elts) == 2 and args:
+                    return [Leaf("other", it, (), "index")] if pos == 0 else self._lv(args[0], sc, seen)
+                if fq in ("builtins.zip", "itertools.zip_longest") and len(target.elts) == len(args):
+                    return self._lv(args[pos], sc, seen)
+        return self._lv(it, sc, seen)
 
     def _defs(self, name: str, defs: t.Iterable[Def], at: ast.AST, sc: Scope, seen: frozenset[int]) -> list[Leaf]:
         defs = sorted(defs, key=lambda d: (getattr(d.stmt, "lineno", 0), getattr(d.stmt, "col_offset", 0)))
         if not defs:
             if sc.parent is not None:
                 # free variable of a nested function: the bindings visible where the function is defined
-                if name in sc.parent.bind:
-                    arg, asc = sc.parent.bind[name]
-                    return self._lv(arg, asc, seen)
                 pn = sc.parent.cfg.node_of(sc.fn)
                 pd = sc.parent.rd.after(pn, name) if pn is not None else frozenset()
+                if not pd and name in sc.parent.bind:
+                    arg, asc = sc.parent.bind[name]
+                    return self._lv(arg, asc, seen)
                 return self._defs(name, pd, at, sc.parent, seen)
             return [Leaf("global", at, (), name)]
         out: list[Leaf] = []
@@ -238,21 +297,34 @@ class Flow:
                 continue
             s2 = seen | {id(d)}
             if d.kind == "param":
-                out.append(Leaf("param", at, (), name))
+                if name in sc.bind:
+                    arg, asc = sc.bind[name]
+                    out += self._lv(arg, asc, s2)
+                else:
+                    out.append(Leaf("param", at, (), name))
             elif d.kind in ("assign", "walrus"):
                 out += self._lv(d.value, sc, s2)
             elif d.kind == "unpack":
                 v = d.value
                 if isinstance(v, (ast.Tuple, ast.List)) and d.index is not None and d.index < len(v.elts) and not any(isinstance(x, ast.Starred) for x in v.elts):
                     out += self._lv(v.elts[d.index], sc, s2)
+                elif isinstance(v, ast.Call) and d.index is not None and self.callee_scope(v, sc) is not None:
+                    out += self._call(v, sc, s2, d.index)
                 else:
-                    out += self._lv(v, sc, s2)
+                    par = getattr(d.target, "_parent", None)
+                    arity = len(par.elts) if isinstance(par, (ast.Tuple, ast.List)) else None
+                    tag = peel_tag(v, d.index, arity) if d.index is not None else None
+                    out += [l.with_tag(tag) for l in self._lv(v, sc, s2)]
             elif d.kind == "aug":
                 if d.node is not None:
                     out += self._defs(name, sc.rd.reaching(d.node, name), at, sc, s2)
                 out += self._lv(d.value, sc, s2)
             elif d.kind == "for":
-                out += self._lv(d.value, sc, s2)
+                st = d.stmt
+                if isinstance(st, (ast.For, ast.AsyncFor)) and d.index is not None:
+                    out += self._element(st.target, st.iter, name, sc, s2)
+                else:
+                    out += self._lv(d.value, sc, s2)
             else:
                 out.append(Leaf("other", d.stmt if isinstance(d.stmt, ast.AST) else at, (), f"{name} bound by {d.kind}"))
         return out
@@ -281,7 +353,123 @@ class Flow:
                 errors = "?" + ast.unparse(err)
         return codec, errors, ok
 
-    def _call(self, e: ast.Call, sc: Scope, seen: frozenset[int]) -> list[Leaf]:
+    # -- callees -----------------------------------------------------------
+    def callable_target(self, f: ast.AST, sc: Scope, depth: int = 0) -> tuple[str, t.Any, t.Any] | None:
+        """what a callee expression denotes: ('nested', def, defining scope) | ('method', FuncInfo, None) |
+        ('fq', dotted name, None) | ('lambda', Lambda, scope).  Follows parameters bound to a callable argument
+        (``convert`` -> ``_unquote_user``) and plain local aliases."""
+        if depth > 6:
+            return None
+        if isinstance(f, ast.Lambda):
+            return "lambda", f, sc
+        if isinstance(f, ast.Name):
+            node = sc.cfg.node_of(f)
+            defs = sc.rd.reaching(node, f.id) if node is not None else frozenset()
+            if defs:
+                if len(defs) != 1:
+                    return None
+                d = next(iter(defs))
+                if d.kind == "param" and f.id in sc.bind:
+                    arg, asc = sc.bind[f.id]
+                    return self.callable_target(arg, asc, depth + 1)
+                if d.kind == "assign" and d.index is None and isinstance(d.value, (ast.Name, ast.Attribute, ast.Lambda)):
+                    return self.callable_target(d.value, sc, depth + 1)
+                if d.kind == "def":
+                    nf = sc.lookup_nested(f.id)
+                    return ("nested", nf[0], nf[1]) if nf is not None else None
+                if d.kind == "import":
+                    return "fq", self.resolve(f.id, sc), None
+                return None
+            if node is None and f.id in sc.bind:
+                arg, asc = sc.bind[f.id]
+                return self.callable_target(arg, asc, depth + 1)
+            nf = sc.lookup_nested(f.id)
+            if nf is not None:
+                return "nested", nf[0], nf[1]
+            # free variable of a nested function bound in an enclosing inlined scope
+            p = sc.parent
+            while p is not None:
+                if f.id in p.bind:
+                    arg, asc = p.bind[f.id]
+                    return self.callable_target(arg, asc, depth + 1)
+                p = p.parent
+            return "fq", self.resolve(f.id, sc), None
+        if isinstance(f, ast.Attribute):
+            if isinstance(f.value, ast.Name) and sc.cls is not None and self._is_receiver(f.value.id, sc):
+                try:
+                    _, what = self.repo.lookup(sc.cls, f.attr)
+                except Exception:  # unresolvable base class: the method is simply not looked into
+                    return None
+                if isinstance(what, FuncInfo):
+                    return "method", what, None
+                return None
+            d = dotted(f)
+            return ("fq", self.resolve(d, sc), None) if d else None
+        return None
+
+    def _is_receiver(self, name: str, sc: Scope) -> bool:
+        top = sc
+        while top.parent is not None:
+            top = top.parent
+        a = top.fn.args  # type: ignore[attr-defined]
+        first = (a.posonlyargs + a.args)[:1]
+        return bool(first) and first[0].arg == name and name in ("self", "cls") and name not in top.bind
+
+    def callee_scope(self, call: ast.Call, sc: Scope) -> Scope | None:
+        """a scope for the body of the helper that ``call`` invokes, with its parameters bound to the arguments
+        (evaluated in ``sc``); None when the callee is not a helper that is looked into: only nested functions,
+        methods of the same class, lambdas and module-level functions of the package qualify."""
+        tgt = self.callable_target(call.func, sc)
+        if tgt is None:
+            return None
+        kind, what, dsc = tgt
+        skip = 0
+        if kind == "nested":
+            fn, parent, module, li, cls = what, dsc, None, None, None
+        elif kind == "lambda":
+            fn, parent, module, li, cls = what, dsc, None, None, None
+        elif kind == "method":
+            fi: FuncInfo = what
+            decs = fi.decorators
+            if any(d.endswith("property") or d.endswith(".setter") for d in decs):
+                return None
+            skip = 0 if any(d.endswith("staticmethod") for d in decs) else 1
+            fn, parent, module, li, cls = fi.node, None, fi.module, fi.module.local_imports(fi.node), fi.cls
+            self.inlined[id(fn)] = fi
+        else:
+            if not what or not what.startswith("werkzeug.") or what in (ENC_DANCE, DEC_DANCE):
+                return None
+            fi2 = self.repo.try_func(what)
+            if fi2 is None or fi2.cls is not None:
+                return None
+            fn, parent, module, li, cls = fi2.node, None, fi2.module, fi2.module.local_imports(fi2.node), None
+            self.inlined[id(fn)] = fi2
+        a = fn.args
+        if a.vararg is not None or a.kwarg is not None:
+            return None
+        names = [x.arg for x in a.posonlyargs + a.args][skip:]
+        bind: dict[str, tuple[ast.AST, Scope]] = {}
+        for i, arg in enumerate(call.args):
+            if isinstance(arg, ast.Starred) or i >= len(names):
+                return None
+            bind[names[i]] = (arg, sc)
+        allnames = set(names) | {x.arg for x in a.kwonlyargs}
+        for kw in call.keywords:
+            if kw.arg is None or kw.arg not in allnames:
+                return None
+            bind[kw.arg] = (kw.value, sc)
+        inner = Scope(fn, parent, bind, module=module, li=li, cls=cls)
+        # parameters left to a constant default
+        pos = a.posonlyargs + a.args
+        for p_, dflt in zip(pos[len(pos) - len(a.defaults):], a.defaults):
+            if p_.arg not in bind and isinstance(dflt, ast.Constant):
+                bind[p_.arg] = (dflt, inner)
+        for p_, dflt in zip(a.kwonlyargs, a.kw_defaults):
+            if p_.arg not in bind and isinstance(dflt, ast.Constant):
+                bind[p_.arg] = (dflt, inner)
+        return inner
+
+    def _call(self, e: ast.Call, sc: Scope, seen: frozenset[int], index: int | None = None) -> list[Leaf]:
         f = e.func
         er = self.environ_read(e, sc)
         if er is not None:
@@ -299,56 +487,128 @@ class Flow:
                 codec, errors, _ = self._codec_args(e)
                 op = Op(m, e, None, codec, errors)
                 return [l.with_op(op) for l in self._lv(f.value, sc, seen)]
+        tgt = self.callable_target(f, sc)
         d = dotted(f)
-        if d is None:
-            return [Leaf("call", e, (), None)]
-        if isinstance(f, ast.Name):
-            nf = sc.lookup_nested(f.id)
-            if nf is not None:
-                return self._inline(nf[0], nf[1], e, sc, seen)
-        fq = self.resolve(d)
+        if tgt is None:
+            return [Leaf("call", e, (), d)]
+        kind, what, _ = tgt
+        if kind in ("nested", "lambda", "method"):
+            return self._inline(e, sc, seen, index)
+        fq = what
         arg0 = e.args[0] if e.args and not isinstance(e.args[0], ast.Starred) else None
         if fq == ENC_DANCE and arg0 is not None:
             return [l.with_op(Op("encdance", e)) for l in self._lv(arg0, sc, seen)]
         if fq == DEC_DANCE and arg0 is not None:
             return [l.with_op(Op("decdance", e)) for l in self._lv(arg0, sc, seen)]
         if fq in QUOTE_FQ and arg0 is not None:
-            return [l.with_op(Op("quote", e, fq)) for l in self._lv(arg0, sc, seen)]
+            return [l.with_op(Op("quote", e, fq, None, None, sc)) for l in self._lv(arg0, sc, seen)]
         if fq in UNQUOTE_FQ and arg0 is not None:
             return [l.with_op(Op("unquote", e, fq)) for l in self._lv(arg0, sc, seen)]
+        if fq in ("builtins.list", "builtins.tuple", "builtins.sorted", "builtins.reversed") and arg0 is not None and len(e.args) == 1 and not e.keywords:
+            # same elements: neither encodes nor decodes
+            return self._lv(arg0, sc, seen)
         if fq and fq.startswith("werkzeug.") and arg0 is not None and len(e.args) == 1 and not e.keywords:
             mn, _, nm = fq.rpartition(".")
             m_ = self.repo.modules.get(mn)
             if m_ is not None and (nm in m_.functions or nm in m_.assigns):
                 return [l.with_op(Op("call", e, fq)) for l in self._lv(arg0, sc, seen)]
+        if fq and fq.startswith("werkzeug.") and self.callee_scope(e, sc) is not None:
+            return self._inline(e, sc, seen, index)
         return [Leaf("call", e, (), fq or d)]
 
     def _is_module_name(self, v: ast.AST) -> bool:
         """receiver of .encode/.decode is an imported module (``codecs.encode``), not a value."""
         return isinstance(v, ast.Name) and (v.id in self.li or v.id in self.module.imports) and v.id not in self.root.params
 
-    def _inline(self, fn: ast.AST, def_scope: Scope, call: ast.Call, sc: Scope, seen: frozenset[int]) -> list[Leaf]:
+    def _inline(self, call: ast.Call, sc: Scope, seen: frozenset[int], index: int | None = None) -> list[Leaf]:
+        inner = self.callee_scope(call, sc)
+        if inner is None:
+            return [Leaf("call", call, (), "unbindable call")]
+        fn = inner.fn
         if id(fn) in seen:
             return [Leaf("call", call, (), "recursive")]
-        a = fn.args  # type: ignore[attr-defined]
-        names = [x.arg for x in a.posonlyargs + a.args]
-        bind: dict[str, tuple[ast.AST, Scope]] = {}
-        for i, arg in enumerate(call.args):
-            if isinstance(arg, ast.Starred) or i >= len(names):
-                return [Leaf("call", call, (), "unbindable call")]
-            bind[names[i]] = (arg, sc)
-        for kw in call.keywords:
-            if kw.arg is None:
-                return [Leaf("call", call, (), "unbindable call")]
-            bind[kw.arg] = (kw.value, sc)
-        inner = Scope(fn, def_scope, bind)
+        s2 = seen | {id(fn)}
+        if isinstance(fn, ast.Lambda):
+            return self._returned(fn.body, inner, s2, index)
         out: list[Leaf] = []
         rets = [n for n in walk_no_nested(fn) if isinstance(n, ast.Return)]
         for r in sorted(rets, key=lambda r: r.lineno):
             if r.value is None:
                 continue
-            out += self._lv(r.value, inner, seen | {id(fn)})
+            out += self._returned(r.value, inner, s2, index)
         return out
+
+    def _returned(self, v: ast.AST, sc: Scope, seen: frozenset[int], index: int | None, depth: int = 0) -> list[Leaf]:
+        """origins of a returned value; with ``index``: of that element of a returned tuple."""
+        if index is None or depth > 4:
+            return self._lv(v, sc, seen)
+        if isinstance(v, (ast.Tuple, ast.List)) and not any(isinstance(x, ast.Starred) for x in v.elts):
+            return self._lv(v.elts[index], sc, seen) if index < len(v.elts) else []
+        if isinstance(v, ast.IfExp):
+            return self._returned(v.body, sc, seen, index, depth + 1) + self._returned(v.orelse, sc, seen, index, depth + 1)
+        if isinstance(v, ast.Name):
+            node = sc.cfg.node_of(v)
+            defs = sc.rd.reaching(node, v.id) if node is not None else frozenset()
+            if defs and all(d.kind == "assign" and d.index is None and isinstance(d.value, (ast.Tuple, ast.List, ast.IfExp)) for d in defs):
+                out: list[Leaf] = []
+                for d in sorted(defs, key=lambda d: getattr(d.stmt, "lineno", 0)):
+                    out += self._returned(d.value, sc, seen, index, depth + 1)  # type: ignore[arg-type]
+                return out
+        if isinstance(v, ast.Call) and self.callee_scope(v, sc) is not None:
+            return self._call(v, sc, seen, index)
+        return self._lv(v, sc, seen)
+
+
+def peel_tag(call: ast.AST | None, index: int, arity: int | None) -> str | None:
+    """'tail' / 'head' for the pieces of ``x.rsplit(sep, 1)`` / ``x.rpartition(sep)`` taken by position."""
+    if not (isinstance(call, ast.Call) and isinstance(call.func, ast.Attribute)):
+        return None
+    m = call.func.attr
+    if m == "rpartition":
+        width = 3
+    elif m == "rsplit":
+        ms = call.args[1] if len(call.args) > 1 else next((k.value for k in call.keywords if k.arg == "maxsplit"), None)
+        if not (isinstance(ms, ast.Constant) and ms.value == 1):
+            return None
+        width = 2
+    else:
+        return None
+    if arity is not None and arity != width:
+        return None
+    if index in (width - 1, -1):
+        return "tail"
+    if index in (0, -width):
+        return "head"
+    return None
+
+
+def slice_peel(sc: "Scope", e: ast.Subscript) -> str | None:
+    """``x[i + 1:]`` / ``x[:i]`` with ``i = x.rfind(sep)`` / ``x.rindex(sep)``: 'tail' / 'head' (as peel_tag)."""
+    sl = e.slice
+    if not isinstance(sl, ast.Slice) or sl.step is not None:
+        return None
+
+    def from_rfind(b: ast.AST | None) -> bool:
+        if b is None:
+            return False
+        for n in ast.walk(b):
+            c = None
+            if isinstance(n, ast.Call):
+                c = n
+            elif isinstance(n, ast.Name):
+                node = sc.cfg.node_of(n)
+                ds = sc.rd.reaching(node, n.id) if node is not None else frozenset()
+                if len(ds) == 1 and next(iter(ds)).kind in ("assign", "walrus") and next(iter(ds)).index is None:
+                    c = next(iter(ds)).value
+            if isinstance(c, ast.Call) and isinstance(c.func, ast.Attribute) and c.func.attr in ("rfind", "rindex") and len(c.args) == 1:
+                return True
+        return False
+
+    if sl.upper is None and from_rfind(sl.lower):
+        return "tail"
+    if sl.lower is None and from_rfind(sl.upper):
+        return "head"
+    return None
 
 
 def _is_env_key(k: str) -> bool:
@@ -372,9 +632,9 @@ def expand(flow: Flow, leaf: Leaf, keep: t.Callable[[str], bool] | None = None, 
         for r in [n for n in walk_no_nested(fi.node) if isinstance(n, ast.Return)]:
             for il in inner.leaves(r.value) if r.value is not None else []:
                 if il.kind == "param" and il.key == fi.params[0]:
-                    nl = Leaf(leaf.kind, leaf.node, leaf.ops[:i] + il.ops + leaf.ops[i + 1 :], leaf.key)
+                    nl = Leaf(leaf.kind, leaf.node, leaf.ops[:i] + il.ops + leaf.ops[i + 1 :], leaf.key, leaf.tags | il.tags)
                 else:
-                    nl = Leaf(il.kind, il.node, il.ops + leaf.ops[i + 1 :], il.key)
+                    nl = Leaf(il.kind, il.node, il.ops + leaf.ops[i + 1 :], il.key, il.tags)
                 out += expand(flow, nl, keep, depth + 1)
         return out or [leaf]
     return [leaf]
@@ -477,6 +737,11 @@ def _value_parent(cur: ast.AST, flow: Flow) -> tuple[str, ast.AST | None]:
             return "up", p
         if isinstance(p.func, ast.Attribute) and p.func.attr == "join":
             return "up", p
+    if isinstance(p, ast.Call) and (any(a is cur for a in p.args) or any(k.value is cur for k in p.keywords)):
+        # an argument of a helper that is looked into stays inside the tracked world - unless the value is
+        # already decoded at this point (what the helper then does with decoded text is not this property's business)
+        if lookable(flow, p) and not _already_decoded(flow, cur):
+            return "up", p
         return "stop", None
     if isinstance(p, (ast.Assign, ast.AnnAssign, ast.NamedExpr)) and getattr(p, "value", None) is cur:
         tgs = p.targets if isinstance(p, ast.Assign) else [p.target]
@@ -484,6 +749,23 @@ def _value_parent(cur: ast.AST, flow: Flow) -> tuple[str, ast.AST | None]:
             return "bind", p
         return "stop", None
     return "stop", None
+
+
+def lookable(flow: Flow, call: ast.Call) -> bool:
+    """the callee is a helper whose body the origin analysis follows (inlined, or recorded and expanded)."""
+    sc = flow.scope_of(call)
+    if flow.callee_scope(call, sc) is not None:
+        return True
+    tgt = flow.callable_target(call.func, sc)
+    if tgt is None or tgt[0] != "fq" or not tgt[1] or not tgt[1].startswith("werkzeug."):
+        return False
+    fi = flow.repo.try_func(tgt[1])
+    return fi is not None and fi.cls is None and len(call.args) == 1 and not call.keywords
+
+
+def _already_decoded(flow: Flow, e: ast.AST) -> bool:
+    env = [l for l0 in flow.leaves(e) for l in expand(flow, l0) if l.kind == "environ"]
+    return bool(env) and all(text_class(l)[0] in ("D", "B") for l in env)
 
 
 def _in_test_position(e: ast.AST) -> bool:
